@@ -33,11 +33,13 @@ from vq.refs import c04_ref as R
 # float32 pipeline, errors relative to the largest magnitude of the quantities compared (see meta for the
 # measured clean-tree distributions these are based on)
 TOL_BATCH = 5e-6
-TOL_LIN = 2e-5
+TOL_LIN = 5e-5
 TOL_PART = 2e-5
 TOL_ANALYTIC = 1e-4
 # a reconstruction mask whose total aperture weight is below half a pixel is outside the domain (division by ~0)
 W_FLOOR = 0.5
+# filtered results smaller than this fraction of the un-filtered result are not judged
+FILTER_FLOOR = 0.05
 
 _FROZEN = False
 
@@ -90,7 +92,7 @@ def _geometry(draw):
     else:
         units = [[p] for p in ordered]
     total = sum(len(u) for u in units)
-    n = draw(st.integers(3, min(40, total)))
+    n = 3 if draw(st.integers(0, 11)) == 11 else draw(st.integers(min(4, total), min(40, total)))
     blob = draw(st.integers(0, 2)) == 0
     want = min(total, int(1.7 * n) + 2) if blob else n
     chosen, cnt = [], 0
@@ -208,10 +210,11 @@ def meta_cases(draw):
         kernel=draw(st.sampled_from(R.KERNELS[fam])),
         kernel2=draw(st.sampled_from(R.KERNELS[fam])),
         up=draw(st.sampled_from([None, 1, 2, 2, 3, 3])),
-        q_lowpass=_sig(qmax * draw(st.integers(30, 120)) / 100.0, 4) if draw(st.integers(0, 2)) == 0 else None,
+        # the first non-zero scan frequency is 2 qmax / n: keep the low-pass above it so that something survives
+        q_lowpass=_sig(qmax * draw(st.integers(max(30, int(250 / min(case["scan"])) + 1), 125)) / 100.0, 4) if draw(st.integers(0, 2)) == 0 else None,
         q_highpass=_sig(qmax * draw(st.integers(5, 50)) / 100.0, 4) if draw(st.integers(0, 3)) == 0 else None,
         flip=draw(st.booleans()),
-        soft=draw(st.integers(0, 3)) != 0,
+        soft=draw(st.sampled_from([True, True, True, False])),
         batches=_batch_list(draw, nr),
         lin={
             "seed": draw(st.integers(0, 10**6)),
@@ -414,6 +417,14 @@ def _check_meta(ctx, case):
     _finite(case, "reconstruction (%s)" % fam, S0, B0)
     s_stack = float(np.max(np.abs(S0)))
     s_bf = float(np.max(np.abs(B0))) + s_stack
+    # float32 rounding is relative to the un-filtered spectrum: when the Butterworth envelopes remove (nearly)
+    # everything, what is left is rounding noise and "relative to max |result|" has no meaning -> not judged
+    if kw["q_lowpass"] or kw["q_highpass"]:
+        with ctx.sut(case, "reconstruct(%s) without filters" % case["kernel"]):
+            Snf, _b = S.run(q, dpa, sel0, "init", None, deconvolution_kernel=case["kernel"], **dict(kw, q_lowpass=None, q_highpass=None))
+        if s_stack < FILTER_FLOOR * float(np.max(np.abs(Snf))):
+            ctx.record(case, False, classes + ["filtered_to_noise"])
+            return
     live = s_stack > 0.0
     ctx.record(case, bool(live and S.nr >= 4 and unequal), classes + ([] if live else ["zero_result"]))
 
